@@ -15,10 +15,10 @@ pub mod lib_ {
             s@.len() > 0 ==> r is Some && *r.unwrap().0 == s@[s@.len() - 1] && r.unwrap().1@ == s@.subrange(0, s@.len() - 1),
     ;
 
-//@fn lib::trim_cr ret=r tags=C12,C13,C06 vis=pub
+//@fn lib::trim_cr ret=r tags=C12,C13,C06,C01,C02 vis=pub
 //@spec
         ensures
-            [C12,C13|trim_cr.removes_one_trailing_cr] r@ == trim(line@),
+            [C01,C02,C12,C13|trim_cr.removes_one_trailing_cr] r@ == trim(line@),
 //@end
 
 //@fn lib::fill_buf ret=res tags=C14,C03,C06 vis=pub
